@@ -69,6 +69,16 @@ SIG = {
     # the script tree: a Script / a nested list of one- and two-element lists (Py.PyTree); recursion under a depth bound
     'tag_hashed_merkle_root': ('utils.py', 'get_tag_hashed_merkle_root',
                     [('hashlib_sha256', 'Bytes → Bytes'), ('OPS', 'List (String × Bytes)'), ('scripts', 'Option Py.PyTree')], 'Bytes'),
+    # the merkle path: a nested function that counts leaves in a `nonlocal` of the enclosing call — the counter is threaded through
+    # (extra parameter, extra component of every returned value); the captured target index is a parameter
+    'traverse_level': ('utils.py', '_generate_merkle_path.traverse_level',
+                       [('hashlib_sha256', 'Bytes → Bytes'), ('OPS', 'List (String × Bytes)'), ('target_leaf_index', 'Int'),
+                        ('level', 'Option Py.PyTree'), ('traversed', 'Int')], '(Bytes × Bool) × Int'),
+    'generate_merkle_path': ('utils.py', '_generate_merkle_path',
+                             [('hashlib_sha256', 'Bytes → Bytes'), ('OPS', 'List (String × Bytes)'), ('all_leafs', 'Option Py.PyTree'),
+                              ('target_leaf_index', 'Int')], 'Bytes'),
+    'control_block_to_bytes': ('utils.py', 'ControlBlock.to_bytes',
+                               [('self_is_odd', 'Bool'), ('self_pubkey_xonly', 'Bytes'), ('self_merkle_path', 'Bytes')], 'Bytes'),
     'calculate_tweak': ('utils.py', 'calculate_tweak',
                         [('hashlib_sha256', 'Bytes → Bytes'), ('OPS', 'List (String × Bytes)'), ('pubkey_bytes', 'Bytes'),
                          ('scripts', 'Py.PyScripts')], 'Int'),
@@ -182,7 +192,10 @@ STR_CALLS = {'bech32_create_checksum': ('bech32_create_checksum', False), 'bech3
              'decode': ('segwit_decode', False)}
 # functions over the script tree; recursive ones get a fuel parameter (the depth of the tree + 1: proved never exhausted)
 TREEFUNS = {'tag_hashed_merkle_root': ('get_tag_hashed_merkle_root', '(Py.treeDepth scripts + 1)'), 'calculate_tweak': (None, None),
-            'sign_taproot_input': (None, None)}
+            'sign_taproot_input': (None, None), 'traverse_level': ('traverse_level', '(Py.treeDepth level + 1)'),
+            'generate_merkle_path': (None, None), 'control_block_to_bytes': (None, None)}
+# a nested function's `nonlocal` counter, threaded: parameter in, extra result component out
+NONLOCAL_STATE = {'traverse_level': 'traversed'}
 # utils.py's tweak functions: which locals are curve points; hex strings (of an even number of digits) are modelled as the bytes they denote
 TWEAKFUNS = {'negate_privkey': set(), 'tweak_taproot_pubkey': {'P', 'Q'}, 'tweak_taproot_privkey': set()}
 TWEAK_CALLS = {'point_add': 'schnorr_point_add', 'point_mul': 'schnorr_point_mul', 'full_pubkey_gen': 'schnorr_full_pubkey_gen',
@@ -357,7 +370,7 @@ class Tr:
     def __init__(s, name, file=None):
         s.name = name; s.tmp = 0; s.pre = []; s.declared = set(); s.points = set(); s.tuple5 = set()
         s.toklists = set(); s.tokvars = set(); s.optables = set(); s.byteslists = set(); s.reclists = {}; s.recvars = {}; s.revtables = set()
-        s.hoisted = set(); s.selfcopies = set(); s.scriptlists = set(); s.fmtvars = {}; s.fmtpre = {}; s.hoisting = False; s.ratvars = set(); s.optvars = set(); s.charvars = set(); s.hexvars = set(); s.tweak_point_ctx = False; s.treevars = {}
+        s.hoisted = set(); s.selfcopies = set(); s.scriptlists = set(); s.fmtvars = {}; s.fmtpre = {}; s.hoisting = False; s.ratvars = set(); s.optvars = set(); s.charvars = set(); s.hexvars = set(); s.tweak_point_ctx = False; s.treevars = {}; s.pairvars = set()
         s.fconsts = FILE_CONSTS.get(file, {})
 
     def fail(s, n, why):
@@ -553,6 +566,16 @@ class Tr:
                 if istree(a[0]) and tv[a[0].id] == 'scripts':
                     return s.eff(f'tag_hashed_merkle_root hashlib_sha256 OPS (Py.scriptsTree {a[0].id})')
             if f == 'b_to_i' and len(a) == 1: return f'(Py.fromBytes {s.e(a[0])} Py.Order.big)'
+            if f == 'traverse_level' and len(a) == 1:
+                st = NONLOCAL_STATE['traverse_level']
+                if s.name == 'traverse_level':
+                    if not (isinstance(a[0], ast.Subscript) and istree(a[0].value)): s.fail(n, 'recursive call argument')
+                    t = s.eff(f'traverse_level_fuel fuel hashlib_sha256 OPS target_leaf_index {s.e(a[0])} {st}')
+                else:
+                    if not istree(a[0]): s.fail(n, 'traverse_level argument')
+                    t = s.eff(f'traverse_level hashlib_sha256 OPS target_leaf_index {a[0].id} {st}')
+                s.pre.append(f'{st} := {t}.2')          # the callee's writes to the shared counter
+                return f'{t}.1'
             def is_self_key(x):
                 return (isinstance(x, ast.Call) and isinstance(x.func, ast.Attribute) and x.func.attr == 'to_string' and not x.args
                         and isinstance(x.func.value, ast.Attribute) and x.func.value.attr == 'key'
@@ -571,6 +594,14 @@ class Tr:
                 and not n.args and isinstance(n.func.value, ast.Attribute) and n.func.value.attr == 'key'
                 and isinstance(n.func.value.value, ast.Name) and n.func.value.value.id == 'self'):
             return 'self_key_bytes'
+        if (isinstance(n, ast.Subscript) and isinstance(n.value, ast.Name) and n.value.id in s.pairvars and isinstance(n.slice, ast.Constant)
+                and n.slice.value in (0, 1)):
+            return f'{n.value.id}.{n.slice.value + 1}'
+        if (s.name == 'control_block_to_bytes' and isinstance(n, ast.Call) and isinstance(n.func, ast.Attribute) and n.func.attr == 'fromhex'
+                and len(n.args) == 1 and isinstance(n.args[0], ast.Call) and isinstance(n.args[0].func, ast.Attribute)
+                and n.args[0].func.attr == 'to_x_only_hex' and isinstance(n.args[0].func.value, ast.Attribute)
+                and n.args[0].func.value.attr == 'pubkey'):
+            return 'self_pubkey_xonly'          # bytes.fromhex(self.pubkey.to_x_only_hex()): the x-only key as bytes
         if isinstance(n, ast.Subscript) and istree(n.value) and tv[n.value.id] == 'tree' and not isinstance(n.slice, ast.Slice):
             return s.eff(f'Py.treeChild {n.value.id} {s.e(n.slice)}')
         if isinstance(n, ast.BinOp) and isinstance(n.op, ast.Add) and istree(n.right) and tv[n.right.id] == 'scripts':
@@ -832,6 +863,7 @@ class Tr:
 
     def tuple_kinds(s, v, k):
         """kinds of the components of a tuple-valued right-hand side (for the declaration of tuple targets)"""
+        if isinstance(v, ast.Call) and getattr(v.func, 'id', '') == 'traverse_level': return ['bytes', 'bool']
         if s.is_unpack_from(v):
             f = s.fmt_of(v.args[0])
             if f is None: return None
@@ -1110,6 +1142,21 @@ class Tr:
         r = [ind + p for p in s.pre]; s.pre = []; return r
 
     def stmt(s, st, ind):
+        if s.name in TREEFUNS:
+            if isinstance(st, ast.Nonlocal):
+                if st.names != [NONLOCAL_STATE.get(s.name)]: s.fail(st, 'nonlocal')
+                return []
+            if isinstance(st, ast.FunctionDef) and st.name in NONLOCAL_STATE: return []      # translated on its own
+            if s.name in NONLOCAL_STATE and isinstance(st, ast.Return):
+                v = s.e(st.value)
+                return s.flush(ind) + [f'{ind}return ({v}, {NONLOCAL_STATE[s.name]})']
+            if (isinstance(st, ast.Assign) and len(st.targets) == 1 and isinstance(st.targets[0], ast.Name)
+                    and isinstance(st.value, ast.Call) and getattr(st.value.func, 'id', '') == 'traverse_level'):
+                nm = st.targets[0].id
+                v = s.e(st.value)
+                kw_ = '' if nm in s.declared else 'let mut '
+                s.declared.add(nm); s.pairvars.add(nm)
+                return s.flush(ind) + [f'{ind}{kw_}{nm} := {v}']
         if (s.name in TWEAKFUNS and isinstance(st, ast.Assign) and len(st.targets) == 1 and isinstance(st.targets[0], ast.Name)):
             nm = st.targets[0].id
             if nm in TWEAKFUNS[s.name]:
@@ -1425,13 +1472,15 @@ class Tr:
                     if k == 'bytes': s.bytesvars.add(nm)
                     if k == 'ints': s.intlists.add(nm)
             if isinstance(st, ast.Assign) and len(st.targets) == 1 and isinstance(st.targets[0], ast.Tuple):
-                kinds = s.tuple_kinds(st.value, len(st.targets[0].elts)) if s.name in PARSERS else None
+                kinds = s.tuple_kinds(st.value, len(st.targets[0].elts)) if (s.name in PARSERS or s.name in TREEFUNS) else None
                 for j, x in enumerate(st.targets[0].elts):
                     if isinstance(x, ast.Name) and x.id not in s.declared:
                         # tuple targets: integers (the callees in the whitelist return tuples of ints) unless the callee says otherwise
                         kd = kinds[j] if kinds and j < len(kinds) else 'int'
                         if kd == 'bytes':
                             out.append(f'  let mut {x.id} := ([] : Bytes)'); s.bytesvars.add(x.id)
+                        elif kd == 'bool':
+                            out.append(f'  let mut {x.id} := false'); s.boolvars.add(x.id)
                         elif kd.startswith('rec:'):
                             out.append(f'  let mut {x.id} : {kd[4:]} := default')
                             s.recvars[x.id] = RECORDS['List ' + kd[4:]]
